@@ -11,12 +11,15 @@ Modelled on (read on the pinned tree):
 * `path/src/lib.rs::atomic_write` — `NamedTempFile::new_in(dir)`, `write_all`, `fchmod 0644`,
   `persist` = `rename(tmp, path)`.
 * `cache/src/lib.rs` — `open_with_lock` (unreadable / unparsable / other-key manifest ⇒ empty),
-  `read_blob` (strip `BLOB_MAGIC`, `split_first_chunk::<4>`, version compare — nothing else),
-  `write_blob` (`if !path.exists() { atomic_write }`), `save` (skip-write shortcut, manifest by
-  `atomic_write`, then `gc`).
+  `read_blob` (the file stem must equal `content_hash(bytes)`, else the file is REMOVED and the read
+  fails; then strip `BLOB_MAGIC`, `split_first_chunk::<4>`, version compare — commit 7005a14;
+  `readBlobOld` is the code before it), `write_blob` (`if !path.exists() { atomic_write }`), `save`
+  (skip-write shortcut, manifest by `atomic_write`, then `gc`).
 * `veryl/src/incremental.rs` — `open` (via `Incremental.missSet`), `dst_is_stale` (recorded in
   `generated_files` ∧ `dst.exists()` ∧ `src.modified() <= stamp`; the `.sv.map` is never looked at),
-  `try_restore` (load / decode / restore failure ⇒ the file is added to the miss set, no dependents).
+  `try_restore` (load / decode / restore failure ⇒ the file is added to the miss set, no dependents;
+  since commit 1f0da8d also when the entry names a diagnostics blob that cannot be loaded or decoded —
+  `restoreOkOld`/`replayedOld` are the code before it).
 * `veryl/src/cmd_build.rs` + `pipeline.rs` + `main.rs` — order: pass-1 loop (`capture` ⇒ fragment
   blobs), emit loop (`.sv` then `.sv.map` per missed file), filelist, `Incremental::save`
   (diagnostics blobs, manifest, gc), and last `metadata.save_build_info()` = `fs::write` IN PLACE.
@@ -216,13 +219,18 @@ def fresh (pol : Policy) (fs : FS) (mtime : File → Nat) (f : File) : Bool :=
           | none => false
           | some m => !(decide (st < m.mt))))
 
-/-- `Store::read_blob` on the bytes of the file. -/
-def readBlob (magic ver : Bytes) (d : Bytes) : Option Bytes :=
+/-- `Store::read_blob` before commit 7005a14: magic and version only. -/
+def readBlobOld (magic ver : Bytes) (d : Bytes) : Option Bytes :=
   if magic.isPrefixOf d then
     let rest := d.drop magic.length
     if rest.length < 4 then none
     else if rest.take 4 = ver then some (rest.drop 4) else none
   else none
+
+/-- `Store::read_blob` on the bytes `d` of the file named `n`: the name must be the content hash of
+    the bytes (`name` = `content_hash`, abstract), then magic and version. -/
+def readBlob (name : Bytes → Nat) (magic ver : Bytes) (n : Nat) (d : Bytes) : Option Bytes :=
+  if name d = n then readBlobOld magic ver d else none
 
 /-- The opaque parts of one run. -/
 structure Env where
@@ -234,16 +242,32 @@ structure Env where
   cach : World → File → Bool
   deps : World → File → List File
   decode : Bytes → Bool              -- `Fragment::from_bytes` and `fragment_cache::restore` succeed
+  decodeDiag : Bytes → Bool := fun _ => true   -- `fragment_cache::restore_diagnostics` succeeds
   magic : Bytes
   ver : Bytes
   key : Nat
   name : Bytes → Nat                 -- `content_hash`
 
-/-- `Store::load`: `fs::read` + `read_blob`. -/
+/-- `Store::load` / `load_diagnostics`: `fs::read` + `read_blob`. -/
 def loadBlob (E : Env) (fs : FS) (n : Nat) : Option Bytes :=
   match fs (.blob n) with
-  | some ⟨.raw d, _⟩ => readBlob E.magic E.ver d
+  | some ⟨.raw d, _⟩ => readBlob E.name E.magic E.ver n d
   | _ => none
+
+def loadBlobOld (E : Env) (fs : FS) (n : Nat) : Option Bytes :=
+  match fs (.blob n) with
+  | some ⟨.raw d, _⟩ => readBlobOld E.magic E.ver d
+  | _ => none
+
+/-- the diagnostics part of `try_restore`: an entry that names a diagnostics blob needs it loadable
+    and decodable -/
+def diagOk (E : Env) (m : Man) (fs : FS) (f : File) : Bool :=
+  match lookupNat m.diagOf f with
+  | none => true
+  | some k =>
+    match loadBlob E fs k with
+    | some pl => E.decodeDiag pl
+    | none => false
 
 /-- `try_restore` succeeds for `f`. -/
 def restoreOk (E : Env) (m : Man) (fs : FS) (f : File) : Bool :=
@@ -251,8 +275,35 @@ def restoreOk (E : Env) (m : Man) (fs : FS) (f : File) : Bool :=
   | none => false
   | some n =>
     match loadBlob E fs n with
+    | some pl => diagOk E m fs f && E.decode pl
+    | none => false
+
+/-- `try_restore` before commits 7005a14 and 1f0da8d. -/
+def restoreOkOld (E : Env) (m : Man) (fs : FS) (f : File) : Bool :=
+  match lookupNat m.blobOf f with
+  | none => false
+  | some n =>
+    match loadBlobOld E fs n with
     | some pl => E.decode pl
     | none => false
+
+/-- Does `read_blob` remove the file named `n`?  (It exists and its bytes do not hash to `n`.) -/
+def purges (E : Env) (fs : FS) (n : Nat) : Bool :=
+  match fs (.blob n) with
+  | none => false
+  | some ⟨.raw d, _⟩ => !(decide (E.name d = n))
+  | some _ => true
+
+/-- The blobs `try_restore` of `f` removes: the fragment blob if damaged; the diagnostics blob if the
+    fragment loaded and that one is damaged. -/
+def purgeOf (E : Env) (m : Man) (fs : FS) (f : File) : List Nat :=
+  match lookupNat m.blobOf f with
+  | none => []
+  | some n =>
+    if purges E fs n then [n]
+    else match loadBlob E fs n, lookupNat m.diagOf f with
+      | some _, some k => if purges E fs k then [k] else []
+      | _, _ => []
 
 /-- `Incremental::open`'s miss set, then the files `try_restore` gives up on. -/
 def missFinal (pol : Policy) (E : Env) (w : World) (mtime : File → Nat) (emit : Bool) (fs : FS) : List File :=
@@ -265,8 +316,19 @@ def emitted (pol : Policy) (E : Env) (w : World) (mtime : File → Nat) (emit : 
 
 /-! ### The plan of one run: which writes happen, in order -/
 
+/-- What the pass-1 loop does to the store for one file: `try_restore` removing a damaged blob,
+    `capture` writing a fragment blob. -/
+inductive P1
+  | purge (n : Nat)
+  | blob (n : Nat) (d : Bytes)
+deriving DecidableEq, Repr
+
+def P1.block : P1 → Block
+  | .purge n => .unlink (.blob n)
+  | .blob n d => .atomic n (.blob n) [.raw d]
+
 structure Plan where
-  blobs : List (Nat × Bytes)            -- fragment blobs written by `capture` (pass-1 loop)
+  pass1 : List P1                       -- pass-1 loop, in path order
   outs : List (Path × Bytes)            -- `.sv` / `.sv.map` rewritten by the emit loop
   filelist : Option Bytes
   diagBlobs : List (Nat × Bytes)
@@ -277,7 +339,7 @@ structure Plan where
 /-- `.build/lock`, `.build/cache/lock`, then the pass-1 loop's fragment blobs. -/
 def Plan.pre0 (pl : Plan) : List Block :=
   [.inPlace (.lock 0) [], .inPlace (.lock 1) []] ++
-  pl.blobs.map (fun b => .atomic b.1 (.blob b.1) [.raw b.2])
+  pl.pass1.map P1.block
 
 /-- the emit loop -/
 def Plan.outBlocks (mode : OutMode) (pl : Plan) : List Block :=
@@ -306,12 +368,16 @@ def Plan.steps (mode : OutMode) (pl : Plan) : List Step := stepsOf (pl.blocks mo
 def changed (fs : FS) (p : Path) (d : Bytes) : List (Path × Bytes) :=
   if content (fs p) = some (.raw d) then [] else [(p, d)]
 
-/-- `write_blob`: `if !path.exists()`; a name written earlier in the same run exists. -/
-def newBlobs (fs : FS) : List (Nat × Bytes) → List Nat → List (Nat × Bytes)
+/-- `path.exists()` during the run: written earlier in this run, or there at the start and not removed. -/
+def blobExists (fs : FS) (gone seen : List Nat) (n : Nat) : Bool :=
+  seen.contains n || ((fs (.blob n)).isSome && !gone.contains n)
+
+/-- `write_blob` for a list of (name, data): `if !path.exists() { atomic_write }`. -/
+def newBlobs (fs : FS) (gone : List Nat) : List (Nat × Bytes) → List Nat → List (Nat × Bytes)
   | [], _ => []
   | (n, d) :: rest, seen =>
-    if (fs (.blob n)).isSome || seen.contains n then newBlobs fs rest seen
-    else (n, d) :: newBlobs fs rest (n :: seen)
+    if blobExists fs gone seen n then newBlobs fs gone rest seen
+    else (n, d) :: newBlobs fs gone rest (n :: seen)
 
 def blobData (E : Env) (pl : Bytes) : Bytes := E.magic ++ E.ver ++ pl
 
@@ -332,17 +398,42 @@ def newManifest (pol : Policy) (E : Env) (w : World) (mtime : File → Nat) (emi
 def newInfo (em : List File) (now : Nat) (fs : FS) : List (File × Nat) :=
   em.map (fun f => (f, now)) ++ oldInfo fs
 
+/-- The pass-1 loop over the paths: a file outside `Incremental::open`'s miss set goes through
+    `try_restore` (which may remove damaged blobs); a file that is (now) a miss is captured. -/
+def pass1Items (E : Env) (w : World) (fs : FS) (m : Man) (ms missF : List File) :
+    List File → (gone seen : List Nat) → List P1
+  | [], _, _ => []
+  | f :: rest, gone, seen =>
+    let pur := if ms.contains f then [] else purgeOf E m fs f
+    let gone' := pur ++ gone
+    let data := E.magic ++ E.ver ++ E.frag w f
+    let cap := if missF.contains f && E.cach w f && !blobExists fs gone' seen (E.name data)
+               then [(E.name data, data)] else []
+    pur.map P1.purge ++ cap.map (fun b => P1.blob b.1 b.2) ++
+      pass1Items E w fs m ms missF rest gone' (cap.map (·.1) ++ seen)
+
+def P1.purged : List P1 → List Nat
+  | [] => []
+  | .purge n :: r => n :: P1.purged r
+  | .blob _ _ :: r => P1.purged r
+
+def P1.written : List P1 → List Nat
+  | [] => []
+  | .purge _ :: r => P1.written r
+  | .blob n _ :: r => n :: P1.written r
+
 def mkPlan (pol : Policy) (E : Env) (w : World) (mtime : File → Nat) (now : Nat) (emit : Bool) (fs : FS) : Plan :=
   let m := openMan E.key fs
+  let ms := missSet m.files w.hash (fresh pol fs mtime) emit w.files
+  let missF := missFinal pol E w mtime emit fs
   let em := emitted pol E w mtime emit fs
   let nm := newManifest pol E w mtime emit fs
-  let fb := newBlobs fs ((em.filter (E.cach w)).map (fun f =>
-              (E.name (blobData E (E.frag w f)), blobData E (E.frag w f)))) []
-  let db := newBlobs fs ((em.filter (E.cach w)).filterMap (fun f =>
-              (E.diag w f).map (fun d => (E.name (blobData E d), blobData E d)))) (fb.map (·.1))
+  let p1 := pass1Items E w fs m ms missF w.files [] []
+  let db := newBlobs fs (P1.purged p1) ((em.filter (E.cach w)).filterMap (fun f =>
+              (E.diag w f).map (fun d => (E.name (blobData E d), blobData E d)))) (P1.written p1)
   let keepNames := nm.blobOf.map (·.2) ++ nm.diagOf.map (·.2)
   let save := !(onDiskCurrent E.key fs && decide (m = nm))
-  { blobs := fb
+  { pass1 := p1
     outs := if emit then em.flatMap (fun f => changed fs (.sv f) (E.an w f) ++ changed fs (.map f) (E.anMap w f)) else []
     filelist := if emit then (match changed fs .filelist (E.flist w) with | [] => none | _ => some (E.flist w)) else none
     diagBlobs := db
@@ -379,15 +470,24 @@ def outData (E : Env) (w : World) : Path → Bytes
   | .map f => E.anMap w f
   | _ => []
 
-/-! ### Cached diagnostics (`try_restore`): an unreadable blob is *not* a miss -/
+/-! ### Cached diagnostics (`try_restore`) -/
 
-/-- What a restored file replays: `load_diagnostics` ⇒ `restore_diagnostics`; any failure ⇒ nothing
-    (only a `debug!` line), and the file stays a hit. -/
+/-- What a restored file replays (`restoreOk` has already made sure the blob loads and decodes). -/
 def replayed (E : Env) (decodeDiag : Bytes → Option (List Nat)) (m : Man) (fs : FS) (f : File) : List Nat :=
   match lookupNat m.diagOf f with
   | none => []
   | some n =>
     match loadBlob E fs n with
+    | none => []
+    | some pl => (decodeDiag pl).getD []
+
+/-- Before commit 1f0da8d: `load_diagnostics` ⇒ `restore_diagnostics`; any failure ⇒ nothing (only a
+    `debug!` line), and the file stayed a hit. -/
+def replayedOld (E : Env) (decodeDiag : Bytes → Option (List Nat)) (m : Man) (fs : FS) (f : File) : List Nat :=
+  match lookupNat m.diagOf f with
+  | none => []
+  | some n =>
+    match loadBlobOld E fs n with
     | none => []
     | some pl => (decodeDiag pl).getD []
 
